@@ -242,8 +242,8 @@ func runJob(self string, c harness.Cfg) *explore.Result {
 	case err := <-done:
 		if err != nil {
 			msg := errb.String()
-			if len(msg) > 2000 {
-				msg = msg[:2000]
+			if len(msg) > 600 {
+				msg = msg[:600]
 			}
 			return &explore.Result{InfraError: "worker failed: " + err.Error() + ": " + msg, Outcomes: map[string]int{}}
 		}
